@@ -185,7 +185,15 @@ def step (st : St) : List String → St × String
     (st, s!"amr loc {k} {Am.showBox bx} #amr-depth-{(AMR.decodeKey (AMR.cellOfKey k)).length}")
   | ["amr", "ngbs", _, _, _] => (st, "amr ngbs")
   | ["amr", "key", lv, px, py, pz] =>
-    (st, s!"amr key {AMR.gridKeyAtLevel st.amr st.amrBox (nat! lv) ⟨flt! px, flt! py, flt! pz⟩}")
+    let p : GridNum.V3 Float := ⟨flt! px, flt! py, flt! pz⟩
+    let g := st.amr
+    let b := st.amrBox
+    let ix := AMR.blockIndex g.nx p.x b.ax b.sx
+    let iy := AMR.blockIndex g.ny p.y b.ay b.sy
+    let iz := AMR.blockIndex g.nz p.z b.az b.sz
+    if ix ≥ g.nx ∨ iy ≥ g.ny ∨ iz ≥ g.nz ∨ AMR.keyLoopOutOfRange (nat! lv) p (AMR.blockBox g b ix iy iz) then
+      (st, "amr key out-of-range #amr-key-out-of-range")
+    else (st, s!"amr key {AMR.gridKeyAtLevel g b (nat! lv) p}")
   | ["cart", "new", ax, ay, az, sx, sy, sz, nx, ny, nz, px, py, pz] =>
     let g := Cartesian.mkGrid (α := Float) ⟨flt! ax, flt! ay, flt! az, flt! sx, flt! sy, flt! sz⟩
       ⟨int! nx, int! ny, int! nz⟩ (px == "1") (py == "1") (pz == "1")
